@@ -51,6 +51,9 @@ THE ACCEPTED SUBSET (three layers; PySem.v part 1 / 2 / 3 give the meaning)
                   because the statement raises TypeError anyway).
                   copy — NAME = copy.copy(self.P) | list(self.P) | self.P, Experiment(<keywords>), return.
                   property getters used (self.schedules, self.states, ...) must return (a copy of) the attribute.
+    defaults    : translate_defaults lists the default value of every parameter of every method of the anchored classes with its
+                  kind (None / immutable constant / tuple of those / anything else = possibly mutable); C20_Equiv.v proves the
+                  table contains no mutable default (a mutable default is one object shared by all calls).
     DEFINITE ASSIGNMENT: a name used in a message / handler must be bound on every path (names bound only inside the try
     body do not count) — otherwise Unsupported ("name j is not definitely bound here": this is how the UnboundLocalError
     defect C20-2 shows up at translation time).
@@ -1212,6 +1215,53 @@ def translate_copy(repo):
     return "Definition gen_copy (self_ : exp) : exp * xres :=\n   (%s)." % res
 
 
+DEFAULT_METHODS = {"__init__", "_validate_schedules", "_validate_schedules_str", "_validate_schedule_item", "_validate_schedule_order",
+                   "_validate_schedule_index", "_validate_type", "calc_prob_dist", "calc_prob_dists", "copy", "states", "povms", "gates",
+                   "mprocesses", "schedules", "reset_seed_data"}
+DEFAULT_CLASSES = [("quara/qcircuit/experiment.py", "Experiment"),
+                   ("quara/protocol/qtomography/standard/standard_qtomography.py", "StandardQTomography")]
+
+
+def default_kind(e):
+    """kind of a default-value expression: None | immutable constant | tuple of immutables | (possibly) mutable"""
+    if isinstance(e, ast.Constant):
+        return "DNone" if e.value is None else "DConst"          # bool / int / float / complex / str / bytes / Ellipsis
+    if isinstance(e, ast.UnaryOp) and isinstance(e.op, (ast.USub, ast.UAdd)) and isinstance(e.operand, ast.Constant) \
+            and type(e.operand.value) in (int, float, complex):
+        return "DConst"
+    if isinstance(e, ast.Tuple) and all(default_kind(x) in ("DNone", "DConst", "DTuple") for x in e.elts):
+        return "DTuple"
+    return "DMutable"       # list / dict / set literals and comprehensions, calls, names, attributes: not provably immutable
+
+
+def translate_defaults(repo):
+    """the default of every parameter of the construction / validation / execution methods (DEFAULT_METHODS, incl. nested defs and
+    lambdas inside them) of the anchored classes, as a Gallina table"""
+    rows = []
+    for path, cls in DEFAULT_CLASSES + [(p_, c_) for p_, c_, _ in TOMO]:
+        tree = ast.parse(open(os.path.join(repo, path)).read())
+        found = False
+        for n in ast.walk(tree):
+            if isinstance(n, ast.ClassDef) and n.name == cls:
+                found = True
+                for top in n.body:
+                  if not (isinstance(top, (ast.FunctionDef, ast.AsyncFunctionDef)) and top.name in DEFAULT_METHODS):
+                      continue          # only the methods that take part in construction / validation / execution (this property)
+                  for m in ast.walk(top):
+                    if isinstance(m, (ast.FunctionDef, ast.AsyncFunctionDef, ast.Lambda)):
+                        a = m.args
+                        pos = a.posonlyargs + a.args
+                        for arg, d in zip(pos[len(pos) - len(a.defaults):], a.defaults):
+                            rows.append((cls + "." + getattr(m, "name", "<lambda>"), arg.arg, default_kind(d)))
+                        for arg, d in zip(a.kwonlyargs, a.kw_defaults):
+                            if d is not None:
+                                rows.append((cls + "." + getattr(m, "name", "<lambda>"), arg.arg, default_kind(d)))
+        if not found:
+            raise Unsupported("class %s not found in %s" % (cls, path))
+    body = ";\n    ".join("(%s, %s, %s)" % (coq_str(f), coq_str(a), k) for f, a, k in rows)
+    return "Definition gen_defaults : list (string * string * dkind) :=\n   [%s]." % body
+
+
 def translate_schedules_str(repo):
     path = "quara/protocol/qtomography/standard/standard_qtomography.py"
     tree = ast.parse(open(os.path.join(repo, path)).read())
@@ -1505,6 +1555,8 @@ def main():
                   translate_schedules_str(repo), ""]
         for path, cls, tag in TOMO:
             parts += ["(* from %s : %s.__init__, schedule prologue *)" % (path, cls), translate_tomo_init(repo, path, cls, tag), ""]
+        parts += ["(* default values of all parameters of all methods of Experiment, StandardQTomography and the four tomography classes *)",
+                  translate_defaults(repo), ""]
     except Unsupported as e:
         print("UNSUPPORTED: %s" % e)
         sys.exit(3)
